@@ -367,9 +367,9 @@ let run_xsort args = match args with
       emit (L (A "out" :: List.map sx_mout out)))
   | _ -> raise (Bad "xsort args")
 let run_tmpchk args = match args with
-  | [before; during; after] ->
+  | [cfg; before; during; after] ->
     let names x = List.map (fun a -> bytes_of_hex (atom a)) x in
-    L [A "verdict"; sx_bool (tmp_ok (names (tagged "before" before)) (List.map (fun d -> names (lst d)) (tagged "during" during)) (names (tagged "after" after)))]
+    L [A "verdict"; sx_bool (tmp_ok (bytes_of_hex (atom cfg)) (names (tagged "before" before)) (List.map (fun d -> names (lst d)) (tagged "during" during)) (names (tagged "after" after)))]
   | _ -> raise (Bad "tmpchk args")
 
 let run_case (x : sexp) : sexp =
@@ -396,6 +396,9 @@ let run_case (x : sexp) : sexp =
   | L (A "kmergechk" :: args) -> run_kmergechk args
   | L (A "xsort" :: args) -> run_xsort args
   | L (A "tmpchk" :: args) -> run_tmpchk args
+  | L [A "xsortrec"; _t; cs; th; comp; recs] ->
+    (* records of the crate's own types: the generator supplies the rank of each record's (chrom,start,end) as key *)
+    run_xsort [cs; th; comp; A "0"; L (A "items" :: List.map (fun r -> match lst r with rank :: id :: _ -> L [rank; id] | _ -> raise (Bad "xsortrec rec")) (tagged "recs" recs))]
   | L (A "tmp" :: _) -> L [A "r"; A "oracle-only"]
   | _ -> raise (Bad "unknown case kind")
 
